@@ -72,8 +72,12 @@ def showBurst (prev : Option (BitVec 64)) (ids : List (BitVec 64)) : String :=
   | _, _ => "bad-op"
 
 /-- concurrent callers: the runner can only observe the *set* of ids, so both sides sort it -/
+def isIncreasing : List (BitVec 64) → Bool
+  | a :: b :: rest => BitVec.slt a b && isIncreasing (b :: rest)
+  | _ => true
+
 def sortIds (ids : List (BitVec 64)) : List (BitVec 64) :=
-  (ids.toArray.qsort (fun a b => BitVec.slt a b)).toList
+  if isIncreasing ids then ids else (ids.toArray.qsort (fun a b => BitVec.slt a b)).toList
 
 def parseClock (ms sub : String) : Option Clock :=
   match parseI64 ms, parseNatStrict sub with
